@@ -82,7 +82,10 @@ PROPS: dict = {
                     "estimator, the centroids compared with the majority vote of the current clusters; S-ASSIGN: explicit reinsert labels "
                     "(permutation, duplicate id, out-of-range id, re-insertion without reset): refused or the ranks, vs the model; "
                     "non-trivial = fit with more than one cluster"},
-    "C20": {"suites": [monitor.suite_monitor], "rule": RULE_MON, "proof_modules": ["BBProps.C20", "BBProofs.Monitor", "BBModel.Monitor"]},
+    "C20": {"suites": [monitor.suite_monitor, gen.suite_gen({"monitor"})], "rule": RULE_MON + "; S-GEN monitor stream: bblean._memory.monitor_rss_process "
+            "run for real (real files) with a scripted process tree, clock and sleep; every iteration's file effects recorded at the module's "
+            "own open / os / time names vs the generated loop body, and the peak file after every iteration = the complete running maximum",
+            "proof_modules": ["BBProps.C20", "BBProofs.Monitor", "BBModel.Monitor", "BBProofs.GenEq7", "BBProofs.GenEq", "BBProofs.PyNum", "BBGen.Gen", "BBModel.PyNum"]},
     "C15": {"suites": [cli.suite_run, cli.suite_multiround, gen.suite_gen({"validate"})],
             "rule": "`bb run` through typer's CliRunner in-process (and as a subprocess of /venv/bin/bb when the memory monitor is on) over random "
                     "combinations of: six merge x six refine criteria, refine-num 0-2, refine-rounds none/0-2, recluster rounds 0-2 with and "
